@@ -14,25 +14,30 @@ Definition xsum {A} (F : A -> A -> Z) (l1 l2 : list A) : Z := zsum (map (fun x =
 Lemma psum_app {A} (F : A -> A -> Z) l1 l2 : psum F (l1 ++ l2) = psum F l1 + psum F l2.
 Proof. unfold psum. rewrite map_app, zsum_app. reflexivity. Qed.
 
+Lemma psum_map_pair {A} (F : A -> A -> Z) a l : psum F (map (pair a) l) = zsum (map (F a) l).
+Proof. unfold psum. rewrite map_map. reflexivity. Qed.
+
 Lemma ordpairs_app_sum {A} (F : A -> A -> Z) (l1 l2 : list A) :
   psum F (ordpairs (l1 ++ l2)) = psum F (ordpairs l1) + xsum F l1 l2 + psum F (ordpairs l2).
 Proof.
-  induction l1 as [|a l1 IH]; [unfold psum, xsum; simpl; lia|].
-  cbn [app ordpairs]. rewrite !psum_app, IH. unfold xsum. cbn [map]. rewrite zsum_cons.
-  assert (E : forall l, psum F (map (pair a) l) = zsum (map (F a) l)).
-  { intros l. unfold psum. rewrite map_map. reflexivity. }
-  rewrite !E, map_app, zsum_app. lia.
+  induction l1 as [|a l1 IH].
+  - cbn [app ordpairs]. change (psum F []) with 0. change (xsum F [] l2) with 0. lia.
+  - cbn [app ordpairs]. rewrite !psum_app, IH, !psum_map_pair. unfold xsum. cbn [map]. rewrite zsum_cons.
+    rewrite map_app, zsum_app. lia.
 Qed.
 
 Lemma xsum_nil_r {A} (F : A -> A -> Z) l : xsum F l [] = 0.
-Proof. unfold xsum. induction l; simpl; lia. Qed.
+Proof.
+  unfold xsum. rewrite (zsum_map_ext _ (fun _ => 0)) by reflexivity.
+  induction l as [|a l IH]; [reflexivity|]. cbn [map]. rewrite zsum_cons, IH. reflexivity.
+Qed.
 Lemma xsum_cons_l {A} (F : A -> A -> Z) a l1 l2 : xsum F (a :: l1) l2 = zsum (map (F a) l2) + xsum F l1 l2.
 Proof. reflexivity. Qed.
 Lemma xsum_app_l {A} (F : A -> A -> Z) l1 l1' l2 : xsum F (l1 ++ l1') l2 = xsum F l1 l2 + xsum F l1' l2.
 Proof. unfold xsum. rewrite map_app, zsum_app. reflexivity. Qed.
 Lemma xsum_app_r {A} (F : A -> A -> Z) l1 l2 l2' : xsum F l1 (l2 ++ l2') = xsum F l1 l2 + xsum F l1 l2'.
 Proof.
-  unfold xsum. induction l1 as [|a l1 IH]; simpl; [lia|]. rewrite map_app, zsum_app, IH. lia.
+  unfold xsum. induction l1 as [|a l1 IH]; [reflexivity|]. cbn [map]. rewrite !zsum_cons, map_app, zsum_app, IH. lia.
 Qed.
 Lemma xsum_ext {A} (F G : A -> A -> Z) l1 l2 :
   (forall x y, In x l1 -> In y l2 -> F x y = G x y) -> xsum F l1 l2 = xsum G l1 l2.
@@ -53,7 +58,7 @@ Proof.
 Qed.
 Lemma psum_const {A} (c : Z) (l : list A) : psum (fun _ _ => c) (ordpairs l) * 2 = c * Z.of_nat (length l) * (Z.of_nat (length l) - 1).
 Proof.
-  induction l as [|a l IH]; [reflexivity|]. cbn [ordpairs]. rewrite psum_app.
+  induction l as [|a l IH]; [cbn [ordpairs length]; change (psum (fun _ _ : A => c) []) with 0; lia|]. cbn [ordpairs]. rewrite psum_app.
   assert (E : psum (fun _ _ : A => c) (map (pair a) l) = c * Z.of_nat (length l)).
   { unfold psum. rewrite map_map. simpl. clear. induction l as [|b l IH]; [simpl; lia|]. cbn [map length]. rewrite zsum_cons, IH. lia. }
   rewrite E. cbn [length]. lia.
@@ -66,3 +71,665 @@ Lemma bid_tail k b c x : ~ In x b -> bid_from k (b :: c) x = bid_from (k + 1) c 
 Proof. intros H. simpl. apply mem_false in H. rewrite H. reflexivity. Qed.
 Lemma bid_tail_ge k c x : 0 <= k -> In x (concat c) -> k <= bid_from k c x.
 Proof. intros Hk Hx. destruct (bid_from_range k c x Hk) as [E|E]; [|assumption]. apply bid_from_unranked in E; [contradiction|assumption]. Qed.
+
+(** triangular numbers without division *)
+Fixpoint tri (n : nat) : Z := match n with O => 0 | S n' => Z.of_nat n' + tri n' end.
+Lemma tri_double n : 2 * tri n = Z.of_nat n * (Z.of_nat n - 1).
+Proof. induction n as [|n IH]; [reflexivity|]. cbn [tri]. rewrite Nat2Z.inj_succ. lia. Qed.
+Lemma tri_div n : tri n = Z.of_nat n * (Z.of_nat n - 1) / 2.
+Proof. rewrite <- tri_double. rewrite Z.mul_comm, Z.div_mul by lia. reflexivity. Qed.
+
+Lemma psum_const_tri {A} (c : Z) (l : list A) : psum (fun _ _ => c) (ordpairs l) = c * tri (length l).
+Proof.
+  induction l as [|a l IH]; [cbn [ordpairs length tri]; change (psum (fun _ _ : A => c) []) with 0; lia|].
+  cbn [ordpairs length tri]. rewrite psum_app, IH, psum_map_pair.
+  assert (E : zsum (map (fun _ : A => c) l) = c * Z.of_nat (length l)).
+  { clear. induction l as [|b l IH]; [simpl; lia|]. cbn [map length]. rewrite zsum_cons, IH. lia. }
+  rewrite E. lia.
+Qed.
+
+Lemma filter_concat {A} (f : A -> bool) (c : list (list A)) : filter f (concat c) = concat (map (filter f) c).
+Proof. induction c as [|b c IH]; [reflexivity|]. simpl. rewrite filter_app, IH. reflexivity. Qed.
+
+Lemma filter_split_perm {A} (f : A -> bool) (l : list A) : Permutation l (filter f l ++ filter (fun x => negb (f x)) l).
+Proof.
+  induction l as [|a l IH]; [reflexivity|]. simpl. destruct (f a); simpl.
+  - constructor. exact IH.
+  - etransitivity; [constructor; exact IH|]. apply Permutation_middle.
+Qed.
+
+Section OneRanking.
+  Variable s : scheme.
+  Variable r : ranking.
+  Hypothesis Hb0 : b0 s = 0.
+  Hypothesis Ht2 : t2 s = 0.
+  Hypothesis Ht01 : t0 s = t1 s.
+  Hypothesis Ht34 : t3 s = t4 s.
+
+  Definition rk (x : nat) : bool := mem x (elems r).
+  Definition ms (x : nat) : bool := negb (rk x).
+
+  Definition penk (k : Z) (c : ranking) (x y : nat) : Z :=
+    match Z.compare (bid_from k c x) (bid_from k c y) with
+    | Lt => Bv s (status r x y)
+    | Gt => Bv s (status r y x)
+    | Eq => Tv s (status r x y)
+    end.
+
+  Lemma penk0 c x y : penk 0 c x y = placement_pen s c r x y.
+  Proof. reflexivity. Qed.
+
+  Lemma rk_bid x : rk x = true <-> bucket_id r x <> -1.
+  Proof.
+    unfold rk. rewrite mem_In. split.
+    - intros H E. apply bucket_id_unranked in E. contradiction.
+    - intros H. destruct (in_dec Nat.eq_dec x (elems r)) as [I|I]; [assumption|].
+      exfalso. apply H. apply bucket_id_unranked. exact I.
+  Qed.
+  Lemma ms_bid x : ms x = true <-> bucket_id r x = -1.
+  Proof.
+    unfold ms. rewrite negb_true_iff. split.
+    - intros H. destruct (Z.eq_dec (bucket_id r x) (-1)) as [E|E]; [assumption|]. apply rk_bid in E. congruence.
+    - intros H. destruct (rk x) eqn:E; [|reflexivity]. apply rk_bid in E. contradiction.
+  Qed.
+
+  Lemma status_mm x y : ms x = true -> ms y = true -> status r x y = 5%nat.
+  Proof. intros Hx Hy. apply ms_bid in Hx, Hy. unfold status, stat. rewrite Hx, Hy. reflexivity. Qed.
+  Lemma status_rm x y : rk x = true -> ms y = true -> status r x y = 3%nat /\ status r y x = 4%nat.
+  Proof.
+    intros Hx Hy. apply rk_bid in Hx. apply ms_bid in Hy. unfold status, stat. rewrite Hy.
+    replace (bucket_id r x =? -1) with false by lia. split; reflexivity.
+  Qed.
+
+  (** penalties are symmetric *)
+  Lemma penk_sym k c x y : penk k c x y = penk k c y x.
+  Proof.
+    unfold penk. rewrite (Z.compare_antisym (bid_from k c x) (bid_from k c y)).
+    destruct (bid_from k c x ?= bid_from k c y); simpl; try reflexivity.
+    unfold status. apply Tv_stat_swap; assumption.
+  Qed.
+
+  (** moving to the tail of the candidate *)
+  Lemma penk_tail k b c x y : ~ In x b -> ~ In y b -> penk k (b :: c) x y = penk (k + 1) c x y.
+  Proof. intros Hx Hy. unfold penk. rewrite !bid_tail by assumption. reflexivity. Qed.
+
+  Definition mcnt (b : list nat) : Z := Z.of_nat (length (filter ms b)).
+  Definition rcnt (b : list nat) : Z := Z.of_nat (length (filter rk b)).
+  Definition Mtot (c : ranking) : Z := zsum (map mcnt c).
+  Definition Rtot (c : ranking) : Z := zsum (map rcnt c).
+
+  Lemma length_concat_filter (f : nat -> bool) (c : ranking) :
+    Z.of_nat (length (concat (map (filter f) c))) = zsum (map (fun b => Z.of_nat (length (filter f b))) c).
+  Proof. induction c as [|b c IH]; [reflexivity|]. cbn [map concat]. rewrite app_length, zsum_cons. lia. Qed.
+
+  Fixpoint MMval (c : ranking) : Z :=
+    match c with
+    | [] => 0
+    | b :: c' => t5 s * tri (length (filter ms b)) + b5 s * (mcnt b * Mtot c') + MMval c'
+    end.
+
+  Fixpoint RMval (c : ranking) : Z :=
+    match c with
+    | [] => 0
+    | b :: c' => t3 s * (rcnt b * mcnt b) + b3 s * (rcnt b * Mtot c') + b4 s * (Rtot c' * mcnt b) + RMval c'
+    end.
+
+  Lemma Bv5 : Bv s 5 = b5 s. Proof. reflexivity. Qed.
+  Lemma Tv5 : Tv s 5 = t5 s. Proof. reflexivity. Qed.
+
+  (** missing / missing pairs, along the buckets of the candidate *)
+  Lemma MM_struct c : forall k, 0 <= k -> NoDup (concat c) ->
+    psum (penk k c) (ordpairs (concat (map (filter ms) c))) = MMval c.
+  Proof.
+    induction c as [|b c IH]; intros k Hk Nd; [reflexivity|].
+    cbn [map concat MMval]. simpl in Nd. apply NoDup_app_inv in Nd as (Nb & Nc & Dj).
+    rewrite ordpairs_app_sum.
+    assert (E1 : psum (penk k (b :: c)) (ordpairs (filter ms b)) = t5 s * tri (length (filter ms b))).
+    { rewrite <- psum_const_tri. apply psum_ext. intros x y Hx Hy. apply filter_In in Hx as [Hx Mx]. apply filter_In in Hy as [Hy My].
+      unfold penk. rewrite !bid_head by assumption. rewrite Z.compare_refl. rewrite (status_mm x y Mx My). reflexivity. }
+    assert (E2 : xsum (penk k (b :: c)) (filter ms b) (concat (map (filter ms) c)) = b5 s * (mcnt b * Mtot c)).
+    { rewrite (xsum_ext _ (fun _ _ => b5 s)).
+      - rewrite xsum_const. unfold Mtot, mcnt. rewrite length_concat_filter. ring.
+      - intros x y Hx Hy. apply filter_In in Hx as [Hx Mx]. rewrite <- filter_concat in Hy. apply filter_In in Hy as [Hy My].
+        unfold penk. rewrite (bid_head k b c x Hx). rewrite (bid_tail k b c y) by (intros H; exact (Dj y H Hy)).
+        pose proof (bid_tail_ge (k + 1) c y ltac:(lia) Hy) as G.
+        replace (k ?= bid_from (k + 1) c y) with Lt by (symmetry; apply Z.compare_lt_iff; lia).
+        rewrite (status_mm x y Mx My). reflexivity. }
+    assert (E3 : psum (penk k (b :: c)) (ordpairs (concat (map (filter ms) c))) = MMval c).
+    { rewrite <- (IH (k + 1) ltac:(lia) Nc). apply psum_ext. intros x y Hx Hy.
+      rewrite <- filter_concat in Hx, Hy. apply filter_In in Hx as [Hx _]. apply filter_In in Hy as [Hy _].
+      apply penk_tail; intros H; [exact (Dj x H Hx)|exact (Dj y H Hy)]. }
+    rewrite E1, E2, E3. lia.
+  Qed.
+
+  (** ranked / missing pairs, along the buckets of the candidate *)
+  Lemma RM_struct c : forall k, 0 <= k -> NoDup (concat c) ->
+    xsum (penk k c) (concat (map (filter rk) c)) (concat (map (filter ms) c)) = RMval c.
+  Proof.
+    induction c as [|b c IH]; intros k Hk Nd; [reflexivity|].
+    cbn [map concat RMval]. simpl in Nd. apply NoDup_app_inv in Nd as (Nb & Nc & Dj).
+    rewrite xsum_app_l, !xsum_app_r.
+    assert (E1 : xsum (penk k (b :: c)) (filter rk b) (filter ms b) = t3 s * (rcnt b * mcnt b)).
+    { rewrite (xsum_ext _ (fun _ _ => t3 s)); [rewrite xsum_const; unfold rcnt, mcnt; ring|].
+      intros x y Hx Hy. apply filter_In in Hx as [Hx Rx]. apply filter_In in Hy as [Hy My].
+      unfold penk. rewrite !bid_head by assumption. rewrite Z.compare_refl.
+      destruct (status_rm x y Rx My) as [S1 _]. rewrite S1. reflexivity. }
+    assert (E2 : xsum (penk k (b :: c)) (filter rk b) (concat (map (filter ms) c)) = b3 s * (rcnt b * Mtot c)).
+    { rewrite (xsum_ext _ (fun _ _ => b3 s)); [rewrite xsum_const; unfold Mtot, rcnt, mcnt; rewrite length_concat_filter; ring|].
+      intros x y Hx Hy. apply filter_In in Hx as [Hx Rx]. rewrite <- filter_concat in Hy. apply filter_In in Hy as [Hy My].
+      unfold penk. rewrite (bid_head k b c x Hx). rewrite (bid_tail k b c y) by (intros H; exact (Dj y H Hy)).
+      pose proof (bid_tail_ge (k + 1) c y ltac:(lia) Hy) as G.
+      replace (k ?= bid_from (k + 1) c y) with Lt by (symmetry; apply Z.compare_lt_iff; lia).
+      destruct (status_rm x y Rx My) as [S1 _]. rewrite S1. reflexivity. }
+    assert (E3 : xsum (penk k (b :: c)) (concat (map (filter rk) c)) (filter ms b) = b4 s * (Rtot c * mcnt b)).
+    { rewrite (xsum_ext _ (fun _ _ => b4 s)); [rewrite xsum_const; unfold Rtot, rcnt, mcnt; rewrite length_concat_filter; ring|].
+      intros x y Hx Hy. rewrite <- filter_concat in Hx. apply filter_In in Hx as [Hx Rx]. apply filter_In in Hy as [Hy My].
+      unfold penk. rewrite (bid_head k b c y Hy). rewrite (bid_tail k b c x) by (intros H; exact (Dj x H Hx)).
+      pose proof (bid_tail_ge (k + 1) c x ltac:(lia) Hx) as G.
+      replace (bid_from (k + 1) c x ?= k) with Gt by (symmetry; apply Z.compare_gt_iff; lia).
+      destruct (status_rm x y Rx My) as [_ S2]. rewrite S2. reflexivity. }
+    assert (E4 : xsum (penk k (b :: c)) (concat (map (filter rk) c)) (concat (map (filter ms) c)) = RMval c).
+    { rewrite <- (IH (k + 1) ltac:(lia) Nc). apply xsum_ext. intros x y Hx Hy.
+      rewrite <- filter_concat in Hx, Hy. apply filter_In in Hx as [Hx _]. apply filter_In in Hy as [Hy _].
+      apply penk_tail; intros H; [exact (Dj x H Hx)|exact (Dj y H Hy)]. }
+    rewrite E1, E2, E3, E4. lia.
+  Qed.
+End OneRanking.
+
+(** * ranked / ranked pairs, along the buckets of the input ranking *)
+Section Ranked.
+  Variable s : scheme.
+  Variable r0 : ranking.      (* the whole input ranking: fixes [status] *)
+  Variable c : ranking.       (* the candidate *)
+  Hypothesis Hb0 : b0 s = 0.
+  Hypothesis Ht2 : t2 s = 0.
+  Hypothesis Ht01 : t0 s = t1 s.
+
+  Definition fc (x : nat) : nat := cid c x.
+
+  Definition within (a b : nat) : Z := if Nat.eqb a b then 0 else b2 s.
+  Definition cross (a b : nat) : Z := if Nat.ltb a b then 0 else if Nat.ltb b a then b1 s else t0 s.
+
+  Fixpoint RRval (r : ranking) : Z :=
+    match r with
+    | [] => 0
+    | b :: r' => psum (fun x y => within (fc x) (fc y)) (ordpairs b)
+                 + xsum (fun x y => cross (fc x) (fc y)) b (concat r') + RRval r'
+    end.
+
+  Lemma cid_compare x y : In x (concat c) -> In y (concat c) ->
+    Z.compare (bucket_id c x) (bucket_id c y) = Nat.compare (fc x) (fc y).
+  Proof.
+    intros Hx Hy. unfold fc, cid.
+    pose proof (bid_tail_ge 0 c x ltac:(lia) Hx). pose proof (bid_tail_ge 0 c y ltac:(lia) Hy).
+    fold (bucket_id c x) in H. fold (bucket_id c y) in H0.
+    rewrite <- (Z2Nat.id (bucket_id c x)) at 1 by lia. rewrite <- (Z2Nat.id (bucket_id c y)) at 1 by lia.
+    apply Nat2Z.inj_compare.
+  Qed.
+
+  (** the statement is about sub-rankings [r] of [r0] processed with the offset [k] of their first bucket *)
+  Lemma RR_struct r : forall k, 0 <= k -> NoDup (concat r) -> incl (concat r) (concat c) ->
+    (forall x, In x (concat r) -> bucket_id r0 x = bid_from k r x) ->
+    psum (placement_pen s c r0) (ordpairs (concat r)) = RRval r.
+  Proof.
+    induction r as [|b r IH]; intros k Hk Nd Hin Hb; [reflexivity|].
+    cbn [concat RRval]. simpl in Nd. apply NoDup_app_inv in Nd as (Nb & Nr & Dj).
+    rewrite ordpairs_app_sum.
+    assert (Hinb : forall x, In x b -> In x (concat c)) by (intros x Hx; apply Hin; simpl; apply in_or_app; auto).
+    assert (Hinr : forall x, In x (concat r) -> In x (concat c)) by (intros x Hx; apply Hin; simpl; apply in_or_app; auto).
+    assert (Bb : forall x, In x b -> bucket_id r0 x = k).
+    { intros x Hx. rewrite Hb by (simpl; apply in_or_app; auto). apply bid_head. assumption. }
+    assert (Br : forall x, In x (concat r) -> bucket_id r0 x = bid_from (k + 1) r x /\ k + 1 <= bucket_id r0 x).
+    { intros x Hx. rewrite Hb by (simpl; apply in_or_app; auto).
+      rewrite bid_tail by (intros H; exact (Dj x H Hx)). split; [reflexivity|]. apply bid_tail_ge; [lia|assumption]. }
+    assert (E1 : psum (placement_pen s c r0) (ordpairs b) = psum (fun x y => within (fc x) (fc y)) (ordpairs b)).
+    { apply psum_ext. intros x y Hx Hy. unfold placement_pen, status, stat. rewrite (Bb x Hx), (Bb y Hy).
+      replace (k =? -1) with false by lia. simpl. rewrite Z.ltb_irrefl.
+      rewrite (cid_compare x y (Hinb x Hx) (Hinb y Hy)). unfold within.
+      destruct (Nat.compare_spec (fc x) (fc y)) as [E|E|E].
+      - rewrite E, Nat.eqb_refl. unfold Tv, Tl; simpl. assumption.
+      - replace (Nat.eqb (fc x) (fc y)) with false by (symmetry; apply Nat.eqb_neq; lia). reflexivity.
+      - replace (Nat.eqb (fc x) (fc y)) with false by (symmetry; apply Nat.eqb_neq; lia). reflexivity. }
+    assert (E2 : xsum (placement_pen s c r0) b (concat r) = xsum (fun x y => cross (fc x) (fc y)) b (concat r)).
+    { apply xsum_ext. intros x y Hx Hy. unfold placement_pen, status, stat. rewrite (Bb x Hx).
+      destruct (Br y Hy) as [_ Gy].
+      replace (k =? -1) with false by lia. replace (bucket_id r0 y =? -1) with false by lia. simpl.
+      replace (k <? bucket_id r0 y) with true by lia. replace (bucket_id r0 y <? k) with false by lia.
+      rewrite (cid_compare x y (Hinb x Hx) (Hinr y Hy)). unfold cross.
+      destruct (Nat.compare_spec (fc x) (fc y)) as [E|E|E].
+      - rewrite E, Nat.ltb_irrefl. unfold Tv, Tl; reflexivity.
+      - replace (Nat.ltb (fc x) (fc y)) with true by (symmetry; apply Nat.ltb_lt; lia). unfold Bv, Bl; simpl. assumption.
+      - replace (Nat.ltb (fc x) (fc y)) with false by (symmetry; apply Nat.ltb_ge; lia).
+        replace (Nat.ltb (fc y) (fc x)) with true by (symmetry; apply Nat.ltb_lt; lia). reflexivity. }
+    assert (E3 : psum (placement_pen s c r0) (ordpairs (concat r)) = RRval r).
+    { apply (IH (k + 1)); [lia|assumption|intros x Hx; apply Hinr; assumption|intros x Hx; apply Br; assumption]. }
+    rewrite E1, E2, E3. reflexivity.
+  Qed.
+End Ranked.
+
+(** * counting on lists of consensus bucket ids *)
+Definition neq01 (a b : nat) : Z := if Nat.eqb a b then 0 else 1.
+Definition dpairs (l : list nat) : Z := psum neq01 (ordpairs l).
+
+Lemma ordpairs_map {A B} (f : A -> B) (l : list A) :
+  ordpairs (map f l) = map (fun p => (f (fst p), f (snd p))) (ordpairs l).
+Proof.
+  induction l as [|a l IH]; [reflexivity|]. cbn [map ordpairs]. rewrite map_app, IH, !map_map. reflexivity.
+Qed.
+
+Lemma psum_map {A B} (F : B -> B -> Z) (f : A -> B) (l : list (A * A)) :
+  psum F (map (fun p => (f (fst p), f (snd p))) l) = psum (fun x y => F (f x) (f y)) l.
+Proof. unfold psum. rewrite map_map. reflexivity. Qed.
+
+Lemma psum_scale {A} (F : A -> A -> Z) (k : Z) (l : list (A * A)) : psum (fun x y => k * F x y) l = k * psum F l.
+Proof.
+  unfold psum. induction l as [|p l IH]; [simpl; lia|]. cbn [map]. rewrite !zsum_cons, IH. lia.
+Qed.
+
+Lemma within_dpairs s (f : nat -> nat) (b : list nat) :
+  psum (fun x y => within s (f x) (f y)) (ordpairs b) = b2 s * dpairs (map f b).
+Proof.
+  unfold dpairs. rewrite ordpairs_map, psum_map, <- psum_scale. apply psum_ext.
+  intros x y _ _. unfold within, neq01. destruct (Nat.eqb (f x) (f y)); lia.
+Qed.
+
+Lemma cnt_as_sum (P : nat -> bool) (l : list nat) : cnt P l = zsum (map (fun b => if P b then 1 else 0) l).
+Proof. induction l as [|a l IH]; [reflexivity|]. rewrite cnt_cons. cbn [map]. rewrite zsum_cons, IH. reflexivity. Qed.
+
+Lemma cross_sum s (f : nat -> nat) (b l : list nat) :
+  xsum (fun x y => cross s (f x) (f y)) b l = b1 s * cross_gt (map f b) (map f l) + t0 s * cross_eq (map f b) (map f l).
+Proof.
+  induction b as [|a b IH]; [unfold xsum, cross_gt, cross_eq; simpl; lia|].
+  rewrite xsum_cons_l, IH. cbn [map]. rewrite cross_gt_cons_l, cross_eq_cons_l.
+  assert (E : zsum (map (cross s (f a)) (map f l)) =
+              b1 s * cnt (fun b0 => Nat.ltb b0 (f a)) (map f l) + t0 s * cnt (fun b0 => Nat.eqb b0 (f a)) (map f l)).
+  { generalize (map f l) as m. intros m. induction m as [|v m IHm]; [rewrite !cnt_nil; simpl; lia|].
+    cbn [map]. rewrite zsum_cons, !cnt_cons, IHm. unfold cross.
+    destruct (Nat.ltb_spec (f a) v); destruct (Nat.ltb_spec v (f a)); destruct (Nat.eqb_spec v (f a)); lia. }
+  rewrite map_map in E. rewrite E. lia.
+Qed.
+
+(** permutation invariance *)
+Lemma cnt_perm P l l' : Permutation l l' -> cnt P l = cnt P l'.
+Proof.
+  intros H. unfold cnt. f_equal. apply Permutation_length. induction H; simpl.
+  - constructor.
+  - destruct (P x); [constructor|]; assumption.
+  - destruct (P x); destruct (P y); try constructor; reflexivity.
+  - etransitivity; eassumption.
+Qed.
+Lemma cross_gt_perm l l' r r' : Permutation l l' -> Permutation r r' -> cross_gt l r = cross_gt l' r'.
+Proof.
+  intros Hl Hr. unfold cross_gt.
+  rewrite (zsum_perm' _ _ (Permutation_map (fun a => cnt (fun b => Nat.ltb b a) r) Hl)).
+  apply zsum_map_ext. intros a _. apply cnt_perm. exact Hr.
+Qed.
+Lemma cross_eq_perm l l' r r' : Permutation l l' -> Permutation r r' -> cross_eq l r = cross_eq l' r'.
+Proof.
+  intros Hl Hr. unfold cross_eq.
+  rewrite (zsum_perm' _ _ (Permutation_map (fun a => cnt (fun b => Nat.eqb b a) r) Hl)).
+  apply zsum_map_ext. intros a _. apply cnt_perm. exact Hr.
+Qed.
+Lemma dpairs_perm l l' : Permutation l l' -> dpairs l = dpairs l'.
+Proof.
+  intros H. unfold dpairs, psum. apply (ordpairs_sum_perm neq01); [|exact H].
+  intros x y. unfold neq01. rewrite (Nat.eqb_sym x y). reflexivity.
+Qed.
+
+(** insertion sort *)
+Lemma ins_perm x l : Permutation (ins x l) (x :: l).
+Proof.
+  induction l as [|y l IH]; [reflexivity|]. simpl. destruct (x <=? y)%nat; [reflexivity|].
+  rewrite IH. apply perm_swap.
+Qed.
+Lemma isort_perm l : Permutation (isort l) l.
+Proof. induction l as [|a l IH]; [reflexivity|]. simpl. rewrite ins_perm. constructor. exact IH. Qed.
+Lemma ins_sorted x l : Sorted Nat.le l -> Sorted Nat.le (ins x l).
+Proof.
+  induction 1 as [|y l Hs IH Hy]; simpl; [repeat constructor|].
+  destruct (Nat.leb_spec x y).
+  - constructor; [constructor; assumption|constructor; assumption].
+  - constructor; [assumption|]. destruct l as [|z l]; simpl.
+    + constructor. lia.
+    + inversion Hy; subst. destruct (x <=? z)%nat; constructor; lia.
+Qed.
+Lemma isort_sorted l : Sorted Nat.le (isort l).
+Proof. induction l as [|a l IH]; [constructor|]. simpl. apply ins_sorted. exact IH. Qed.
+
+(** the run-length walk counts the pairs of distinct values of a sorted list *)
+Lemma dpairs_repeat a n : dpairs (repeat a n) = 0.
+Proof.
+  unfold dpairs. rewrite (psum_ext _ (fun _ _ => 0)); [rewrite psum_const_tri; lia|].
+  intros x y Hx Hy. apply repeat_spec in Hx, Hy. subst. unfold neq01. rewrite Nat.eqb_refl. reflexivity.
+Qed.
+
+Lemma run_pairs_correct : forall fuel l, (length l < fuel)%nat -> Sorted Nat.le l -> run_pairs fuel l = Some (dpairs l).
+Proof.
+  induction fuel as [|f IH]; intros l Hf Hs; [lia|]. cbn [run_pairs].
+  destruct l as [|a l]; [reflexivity|]. destruct l as [|a2 l]; [reflexivity|].
+  set (L := a :: a2 :: l) in *.
+  pose proof (span_eq_spec a L Hs) as Sp.
+  assert (Hlb : lb a L).
+  { unfold L. constructor; [lia|]. apply (sorted_lb a (a2 :: l)). exact Hs. }
+  specialize (Sp Hlb). destruct (span_eq a L) as [cn rest] eqn:Es. destruct Sp as (E & Sl & Ss).
+  assert (Hc : (1 <= cn)%nat).
+  { destruct cn; [|lia]. simpl in E. subst rest. unfold L in Sl. inversion Sl; subst. lia. }
+  assert (Hlen : length L = (cn + length rest)%nat) by (rewrite E, app_length, repeat_length; reflexivity).
+  rewrite (IH rest) by (try assumption; lia).
+  f_equal. replace (dpairs L) with (dpairs (repeat a cn ++ rest)) by (rewrite <- E; reflexivity).
+  unfold dpairs. rewrite ordpairs_app_sum. fold (dpairs (repeat a cn)). fold (dpairs rest).
+  rewrite dpairs_repeat.
+  rewrite (xsum_ext _ (fun _ _ => 1)).
+  - rewrite xsum_const, repeat_length. lia.
+  - intros x y Hx Hy. apply repeat_spec in Hx. subst x. unfold slb in Sl. rewrite Forall_forall in Sl. specialize (Sl y Hy).
+    unfold neq01. replace (Nat.eqb a y) with false by (symmetry; apply Nat.eqb_neq; lia). reflexivity.
+Qed.
+
+(** * the merge sort over the buckets of r' counts all cross-bucket inversions and equal pairs *)
+Fixpoint total_gt (l : list (list nat)) : Z := match l with [] => 0 | b :: l' => cross_gt b (concat l') + total_gt l' end.
+Fixpoint total_eq (l : list (list nat)) : Z := match l with [] => 0 | b :: l' => cross_eq b (concat l') + total_eq l' end.
+
+Lemma total_gt_app l1 l2 : total_gt (l1 ++ l2) = total_gt l1 + cross_gt (concat l1) (concat l2) + total_gt l2.
+Proof.
+  induction l1 as [|b l1 IH]; [simpl; unfold cross_gt; simpl; lia|].
+  cbn [app total_gt concat]. rewrite IH, concat_app, cross_gt_app_r, cross_gt_app_l. lia.
+Qed.
+Lemma total_eq_app l1 l2 : total_eq (l1 ++ l2) = total_eq l1 + cross_eq (concat l1) (concat l2) + total_eq l2.
+Proof.
+  induction l1 as [|b l1 IH]; [simpl; unfold cross_eq; simpl; lia|].
+  cbn [app total_eq concat]. rewrite IH, concat_app, cross_eq_app_r, cross_eq_app_l. lia.
+Qed.
+
+Definition sub (rp : list (list nat)) (left right : nat) : list (list nat) := firstn (right - left + 1) (skipn left rp).
+
+Lemma sub_single rp i : (i < length rp)%nat -> sub rp i i = [nth i rp []].
+Proof.
+  intros H. unfold sub. replace (i - i + 1)%nat with 1%nat by lia.
+  revert i H; induction rp as [|b rp IH]; intros i H; [simpl in H; lia|].
+  destruct i as [|i]; [reflexivity|]. simpl. apply IH. simpl in H. lia.
+Qed.
+
+Lemma firstn_add {A} (a b : nat) (l : list A) : firstn (a + b) l = firstn a l ++ firstn b (skipn a l).
+Proof. revert l; induction a as [|a IH]; intros l; [reflexivity|]. destruct l as [|x l]; [simpl; destruct b; reflexivity|]. simpl. rewrite IH. reflexivity. Qed.
+Lemma skipn_add {A} (a b : nat) (l : list A) : skipn (a + b) l = skipn b (skipn a l).
+Proof. revert l; induction a as [|a IH]; intros l; [reflexivity|]. destruct l as [|x l]; [simpl; destruct b; reflexivity|]. simpl. apply IH. Qed.
+
+Lemma sub_split rp left mid right :
+  (left <= mid)%nat -> (mid < right)%nat -> (right < length rp)%nat ->
+  sub rp left right = sub rp left mid ++ sub rp (mid + 1) right.
+Proof.
+  intros H1 H2 H3. unfold sub.
+  replace (right - left + 1)%nat with ((mid - left + 1) + (right - (mid + 1) + 1))%nat by lia.
+  rewrite firstn_add, <- skipn_add.
+  replace (left + (mid - left + 1))%nat with (mid + 1)%nat by lia. reflexivity.
+Qed.
+
+Lemma sub_all rp : rp <> [] -> sub rp 0 (length rp - 1) = rp.
+Proof.
+  intros H. unfold sub. simpl skipn. replace (length rp - 1 - 0 + 1)%nat with (length rp) by (destruct rp; [contradiction|simpl; lia]).
+  apply firstn_all.
+Qed.
+
+Lemma msl_unfold f rp left right : rp <> [] ->
+  msl (S f) rp left right =
+  if (right <=? left)%nat then Some (nth right rp [], 0, 0)
+  else
+    let middle := ((right - left) / 2)%nat in
+    let begin := (middle + left + 1)%nat in
+    match msl f rp left (middle + left), msl f rp begin right with
+    | Some (l1, i1, e1), Some (l2, i2, e2) =>
+        match merge (S (length l1 + length l2)) l1 l2 with
+        | Some (m, i, e) => Some (m, i1 + i2 + i, e1 + e2 + e)
+        | None => None
+        end
+    | _, _ => None
+    end.
+Proof. intros H. destruct rp; [contradiction|reflexivity]. Qed.
+
+Theorem msl_correct : forall fuel rp left right,
+  rp <> [] -> Forall (Sorted Nat.le) rp -> (left <= right)%nat -> (right < length rp)%nat -> (right - left < fuel)%nat ->
+  exists m, msl fuel rp left right = Some (m, total_gt (sub rp left right), total_eq (sub rp left right)) /\
+            Sorted Nat.le m /\ Permutation m (concat (sub rp left right)).
+Proof.
+  induction fuel as [|f IH]; intros rp left right Hne Hs Hlr Hr Hf; [lia|].
+  rewrite msl_unfold by assumption.
+  destruct (Nat.leb_spec right left) as [L|L].
+  - assert (right = left) by lia. subst right. rewrite sub_single by assumption.
+    exists (nth left rp []). cbn [total_gt total_eq concat]. rewrite app_nil_r.
+    rewrite cross_gt_nil_r, cross_eq_nil_r. split; [reflexivity|]. split; [|reflexivity].
+    rewrite Forall_forall in Hs. apply Hs. apply nth_In. assumption.
+  - cbv zeta. set (mid := ((right - left) / 2 + left)%nat).
+    assert (Hm1 : (left <= mid)%nat) by (unfold mid; lia).
+    assert (Hm2 : (mid < right)%nat).
+    { unfold mid. assert ((right - left) / 2 < right - left)%nat by (apply Nat.div_lt; lia). lia. }
+    destruct (IH rp left mid Hne Hs Hm1 ltac:(lia) ltac:(lia)) as (m1 & E1 & S1 & P1).
+    destruct (IH rp (mid + 1)%nat right Hne Hs ltac:(lia) Hr ltac:(lia)) as (m2 & E2 & S2 & P2).
+    rewrite E1, E2.
+    destruct (merge_correct (S (length m1 + length m2)) m1 m2 S1 S2 ltac:(lia)) as (m & Em & Sm & Pm).
+    rewrite Em. exists m. rewrite (sub_split rp left mid right) by assumption.
+    rewrite total_gt_app, total_eq_app, concat_app.
+    rewrite (cross_gt_perm _ _ _ _ P1 P2), (cross_eq_perm _ _ _ _ P1 P2).
+    split; [f_equal; f_equal; [f_equal|]; lia|]. split; [assumption|].
+    rewrite Pm. apply Permutation_app; assumption.
+Qed.
+
+(** * the counters that walk the buckets of the candidate *)
+Section Assembly.
+  Variable s : scheme.
+  Variable r : ranking.
+  Hypothesis Hb0 : b0 s = 0.
+  Hypothesis Ht2 : t2 s = 0.
+  Hypothesis Ht01 : t0 s = t1 s.
+  Hypothesis Ht34 : t3 s = t4 s.
+
+  Notation rk := (rk r).
+  Notation ms := (ms r).
+  Notation mcnt := (mcnt r).
+  Notation rcnt := (rcnt r).
+  Notation Mtot := (Mtot r).
+  Notation Rtot := (Rtot r).
+
+  Lemma tmiss_eq c : tmiss c r = map mcnt c.
+  Proof. reflexivity. Qed.
+
+  Lemma len_split b : Z.of_nat (length b) = rcnt b + mcnt b.
+  Proof.
+    unfold KemenyCount.rcnt, KemenyCount.mcnt, KemenyCount.ms.
+    rewrite <- Nat2Z.inj_add, <- app_length. f_equal. apply Permutation_length. apply filter_split_perm.
+  Qed.
+
+  (** sums produced by the loop over the buckets of the candidate *)
+  Fixpoint N15 (c : ranking) : Z := match c with [] => 0 | b :: c' => mcnt b * Mtot c' + N15 c' end.
+  Fixpoint N23 (c : ranking) : Z := match c with [] => 0 | b :: c' => rcnt b * mcnt b + N23 c' end.
+  Fixpoint N25 (c : ranking) : Z := match c with [] => 0 | b :: c' => tri (length (filter ms b)) + N25 c' end.
+
+  Lemma bucket_loop_spec c : forall a15 a23 a25,
+    bucket_loop (map (fun b => Z.of_nat (length b)) c) (map mcnt c) (Mtot c) (a15, a23, a25)
+    = (a15 + N15 c, a23 + N23 c, a25 + N25 c).
+  Proof.
+    induction c as [|b c IH]; intros a15 a23 a25; [simpl; f_equal; [f_equal|]; lia|].
+    cbn [map bucket_loop N15 N23 N25].
+    assert (Mc : Mtot (b :: c) = mcnt b + Mtot c) by reflexivity. rewrite !Mc.
+    assert (Hm : 0 <= mcnt b) by (unfold KemenyCount.mcnt; lia).
+    destruct (0 <? mcnt b) eqn:E0.
+    - replace (mcnt b + Mtot c - mcnt b) with (Mtot c) by lia. rewrite IH.
+      assert (E25 : (if 1 <? mcnt b then a25 + mcnt b * (mcnt b - 1) / 2 else a25) = a25 + tri (length (filter ms b))).
+      { unfold KemenyCount.mcnt in *. rewrite tri_div. destruct (1 <? Z.of_nat (length (filter ms b))) eqn:E1; [reflexivity|].
+        assert (length (filter ms b) = 1%nat) by lia. rewrite H. change (Z.of_nat 1 * (Z.of_nat 1 - 1) / 2) with 0. lia. }
+      rewrite E25. rewrite (len_split b).
+      assert (A3 : forall a b0 c0 a' b' c' : Z, a = a' -> b0 = b' -> c0 = c' -> (a, b0, c0) = (a', b', c')) by (intros; subst; reflexivity).
+      apply A3; ring.
+    - assert (mcnt b = 0) by lia. rewrite H. replace (0 + Mtot c) with (Mtot c) by lia. rewrite IH.
+      assert (length (filter ms b) = 0%nat) by (unfold KemenyCount.mcnt in H; lia). rewrite H0. simpl tri.
+      assert (A3 : forall a b0 c0 a' b' c' : Z, a = a' -> b0 = b' -> c0 = c' -> (a, b0, c0) = (a', b', c')) by (intros; subst; reflexivity).
+      apply A3; ring.
+  Qed.
+
+  Lemma MMval_N c : MMval s r c = t5 s * N25 c + b5 s * N15 c.
+  Proof. induction c as [|b c IH]; [simpl; lia|]. cbn [MMval N25 N15]. rewrite IH. lia. Qed.
+
+  (** sums over the ranked elements of a function of their consensus bucket id *)
+  Fixpoint R13 (c : ranking) : Z := match c with [] => 0 | b :: c' => rcnt b * Mtot c' + R13 c' end.
+  Fixpoint R14 (pre c : ranking) : Z := match c with [] => 0 | b :: c' => rcnt b * Mtot pre + R14 (pre ++ [b]) c' end.
+  Fixpoint Q14 (c : ranking) : Z := match c with [] => 0 | b :: c' => Rtot c' * mcnt b + Q14 c' end.
+
+  Lemma Mtot_app c1 c2 : Mtot (c1 ++ c2) = Mtot c1 + Mtot c2.
+  Proof. unfold KemenyCount.Mtot. rewrite map_app, zsum_app. reflexivity. Qed.
+
+  Lemma R14_Q pre c : R14 pre c = Mtot pre * Rtot c + Q14 c.
+  Proof.
+    revert pre; induction c as [|b c IH]; intros pre.
+    - cbn [R14 Q14]. change (Rtot []) with 0. lia.
+    - cbn [R14 Q14]. rewrite IH, Mtot_app.
+      assert (E1 : Rtot (b :: c) = rcnt b + Rtot c) by reflexivity.
+      assert (E2 : Mtot [b] = mcnt b) by (unfold KemenyCount.Mtot; cbn [map]; rewrite zsum_cons; change (zsum []) with 0; lia).
+      rewrite E1, E2. ring.
+  Qed.
+
+  Lemma RMval_N c : RMval s r c = t3 s * N23 c + b3 s * R13 c + b4 s * Q14 c.
+  Proof. induction c as [|b c IH]; [simpl; lia|]. cbn [RMval N23 R13 Q14]. rewrite IH. lia. Qed.
+
+  Lemma tafter_at (pre : ranking) b c : tafter (map mcnt (pre ++ b :: c)) (length pre) = Mtot c.
+  Proof.
+    unfold tafter. rewrite map_app. cbn [map].
+    replace (S (length pre)) with (length (map mcnt pre ++ [mcnt b])) by (rewrite app_length, map_length; simpl; lia).
+    replace (map mcnt pre ++ mcnt b :: map mcnt c) with ((map mcnt pre ++ [mcnt b]) ++ map mcnt c) by (rewrite <- app_assoc; reflexivity).
+    rewrite firstn_app, Nat.sub_diag, firstn_all. simpl firstn. rewrite app_nil_r, !zsum_app. unfold KemenyCount.Mtot. lia.
+  Qed.
+
+  Lemma tbefore_at (pre : ranking) c : tbefore (map mcnt (pre ++ c)) (length pre) = Mtot pre.
+  Proof.
+    unfold tbefore. rewrite map_app.
+    replace (length pre) with (length (map mcnt pre)) by apply map_length.
+    rewrite firstn_app, Nat.sub_diag, firstn_all. simpl firstn. rewrite app_nil_r. reflexivity.
+  Qed.
+
+  Lemma sum_after c : forall pre, NoDup (concat c) ->
+    zsum (map (fun x => tafter (map mcnt (pre ++ c)) (Z.to_nat (bid_from (Z.of_nat (length pre)) c x)))
+              (concat (map (filter rk) c))) = R13 c.
+  Proof.
+    induction c as [|b c IH]; intros pre Nd; [reflexivity|].
+    cbn [map concat R13]. simpl in Nd. apply NoDup_app_inv in Nd as (Nb & Nc & Dj).
+    rewrite map_app, zsum_app. f_equal.
+    - rewrite (zsum_map_ext _ (fun _ => Mtot c)).
+      + unfold KemenyCount.rcnt. generalize (filter rk b). intros l. induction l as [|a l IHl]; [simpl; lia|].
+        cbn [map length]. rewrite zsum_cons, IHl. lia.
+      + intros x Hx. apply filter_In in Hx as [Hx _]. rewrite (bid_head _ b c x Hx). rewrite Nat2Z.id. apply tafter_at.
+    - rewrite <- (IH (pre ++ [b]) Nc). apply zsum_map_ext. intros x Hx.
+      rewrite <- filter_concat in Hx. apply filter_In in Hx as [Hx _].
+      rewrite (bid_tail _ b c x) by (intros H; exact (Dj x H Hx)).
+      rewrite app_length. simpl length. rewrite Nat2Z.inj_add. simpl Z.of_nat. rewrite <- app_assoc. reflexivity.
+  Qed.
+
+  Lemma sum_before c : forall pre, NoDup (concat c) ->
+    zsum (map (fun x => tbefore (map mcnt (pre ++ c)) (Z.to_nat (bid_from (Z.of_nat (length pre)) c x)))
+              (concat (map (filter rk) c))) = R14 pre c.
+  Proof.
+    induction c as [|b c IH]; intros pre Nd; [reflexivity|].
+    cbn [map concat R14]. simpl in Nd. apply NoDup_app_inv in Nd as (Nb & Nc & Dj).
+    rewrite map_app, zsum_app. f_equal.
+    - rewrite (zsum_map_ext _ (fun _ => Mtot pre)).
+      + unfold KemenyCount.rcnt. generalize (filter rk b). intros l. induction l as [|a l IHl]; [simpl; lia|].
+        cbn [map length]. rewrite zsum_cons, IHl. lia.
+      + intros x Hx. apply filter_In in Hx as [Hx _]. rewrite (bid_head _ b c x Hx). rewrite Nat2Z.id. apply tbefore_at.
+    - rewrite <- (IH (pre ++ [b]) Nc). apply zsum_map_ext. intros x Hx.
+      rewrite <- filter_concat in Hx. apply filter_In in Hx as [Hx _].
+      rewrite (bid_tail _ b c x) by (intros H; exact (Dj x H Hx)).
+      rewrite app_length. simpl length. rewrite Nat2Z.inj_add. simpl Z.of_nat. rewrite <- app_assoc. reflexivity.
+  Qed.
+End Assembly.
+
+(** * one input ranking *)
+Lemma concat_map_perm (f : list nat -> list nat) (ll : list (list nat)) :
+  (forall l, Permutation (f l) l) -> Permutation (concat (map f ll)) (concat ll).
+Proof.
+  intros H. induction ll as [|l ll IH]; [reflexivity|]. simpl. apply Permutation_app; [apply H|exact IH].
+Qed.
+
+Lemma total_gt_isort ll : total_gt (map isort ll) = total_gt ll.
+Proof.
+  induction ll as [|l ll IH]; [reflexivity|]. cbn [map total_gt]. rewrite IH.
+  rewrite (cross_gt_perm (isort l) l (concat (map isort ll)) (concat ll)); [reflexivity|apply isort_perm|apply concat_map_perm, isort_perm].
+Qed.
+Lemma total_eq_isort ll : total_eq (map isort ll) = total_eq ll.
+Proof.
+  induction ll as [|l ll IH]; [reflexivity|]. cbn [map total_eq]. rewrite IH.
+  rewrite (cross_eq_perm (isort l) l (concat (map isort ll)) (concat ll)); [reflexivity|apply isort_perm|apply concat_map_perm, isort_perm].
+Qed.
+
+Definition dsum (ll : list (list nat)) : Z := zsum (map dpairs ll).
+
+Lemma RRval_counts s c r :
+  RRval s c r = b2 s * dsum (map (map (fc c)) r) + b1 s * total_gt (map (map (fc c)) r) + t0 s * total_eq (map (map (fc c)) r).
+Proof.
+  induction r as [|b r IH]; [unfold dsum; simpl; lia|].
+  cbn [RRval map total_gt total_eq]. unfold dsum in *. cbn [map]. rewrite zsum_cons.
+  rewrite within_dpairs, cross_sum, IH. rewrite concat_map. ring.
+Qed.
+
+Lemma sum_opt_run (ll : list (list nat)) :
+  sum_opt (map (fun b => run_pairs (S (length b)) b) (map isort ll)) = Some (dsum ll).
+Proof.
+  induction ll as [|l ll IH]; [reflexivity|]. cbn [map sum_opt].
+  rewrite run_pairs_correct by (try apply isort_sorted; lia). rewrite IH.
+  unfold dsum. cbn [map]. rewrite zsum_cons. rewrite (dpairs_perm _ _ (isort_perm l)). reflexivity.
+Qed.
+
+Lemma rprime_eq c r : rprime c r = map isort (map (map (fc c)) r).
+Proof. unfold rprime, fc. rewrite map_map. reflexivity. Qed.
+
+Theorem cost_by_ranking_correct s c r :
+  b0 s = 0 -> t2 s = 0 -> t0 s = t1 s -> t3 s = t4 s ->
+  NoDup (elems c) -> NoDup (elems r) -> incl (elems r) (elems c) ->
+  exists k, cost_by_ranking c r = Some k /\ dot s k = kemeny_one s c r.
+Proof.
+  intros Hb0 Ht2 Ht01 Ht34 Nc Nr Hin.
+  set (L := elems c). set (Ac := concat (map (filter (rk r)) c)). set (Mc := concat (map (filter (ms r)) c)).
+  assert (PL : Permutation L (Ac ++ Mc)).
+  { unfold Ac, Mc. rewrite <- !filter_concat. apply filter_split_perm. }
+  assert (PA : Permutation Ac (elems r)).
+  { apply NoDup_Permutation; [unfold Ac; rewrite <- filter_concat; apply NoDup_filter; exact Nc|exact Nr|].
+    intros x. unfold Ac. rewrite <- filter_concat, filter_In. unfold rk. rewrite mem_In. split; [tauto|].
+    intros H. split; [apply Hin; exact H|exact H]. }
+  (* the specification, split into three classes of pairs *)
+  assert (Spec : kemeny_one s c r = RRval s c r + RMval s r c + MMval s r c).
+  { change (kemeny_one s c r) with (psum (placement_pen s c r) (ordpairs L)).
+    assert (Sym : forall x y, placement_pen s c r x y = placement_pen s c r y x).
+    { intros x y. rewrite <- !penk0. apply penk_sym; assumption. }
+    unfold psum. rewrite (ordpairs_sum_perm (placement_pen s c r) L (Ac ++ Mc) Sym PL).
+    fold (psum (placement_pen s c r) (ordpairs (Ac ++ Mc))). rewrite ordpairs_app_sum.
+    assert (E1 : psum (placement_pen s c r) (ordpairs Ac) = RRval s c r).
+    { unfold psum. rewrite (ordpairs_sum_perm (placement_pen s c r) Ac (elems r) Sym PA).
+      apply (RR_struct s r c Hb0 Ht2 r 0); [lia|exact Nr|exact Hin|reflexivity]. }
+    assert (E2 : xsum (placement_pen s c r) Ac Mc = RMval s r c).
+    { rewrite <- (RM_struct s r c 0 ltac:(lia) Nc). apply xsum_ext. intros; apply penk0. }
+    assert (E3 : psum (placement_pen s c r) (ordpairs Mc) = MMval s r c).
+    { rewrite <- (MM_struct s r c 0 ltac:(lia) Nc). apply psum_ext. intros; apply penk0. }
+    rewrite E1, E2, E3. reflexivity. }
+  (* the implementation *)
+  unfold cost_by_ranking. rewrite rprime_eq. set (ll := map (map (fc c)) r).
+  rewrite sum_opt_run.
+  rewrite tmiss_eq. change (zsum (map (mcnt r) c)) with (Mtot r c). rewrite bucket_loop_spec.
+  assert (Flat : Permutation (concat (map isort ll)) (map (fc c) Ac)).
+  { rewrite (concat_map_perm isort ll isort_perm). unfold ll. rewrite <- concat_map.
+    apply Permutation_map. symmetry. exact PA. }
+  assert (S13 : zsum (map (tafter (map (mcnt r) c)) (concat (map isort ll))) = R13 r c).
+  { rewrite (zsum_perm' _ _ (Permutation_map _ Flat)), map_map. apply (sum_after r c [] Nc). }
+  assert (S14 : zsum (map (tbefore (map (mcnt r) c)) (concat (map isort ll))) = Q14 r c).
+  { rewrite (zsum_perm' _ _ (Permutation_map _ Flat)), map_map.
+    transitivity (R14 r [] c); [apply (sum_before r c [] Nc)|]. rewrite R14_Q. change (Mtot r []) with 0. lia. }
+  rewrite S13, S14.
+  assert (Msl : exists m, msl (S (length (map isort ll))) (map isort ll) 0 (length (map isort ll) - 1)
+                          = Some (m, total_gt ll, total_eq ll)).
+  { destruct ll as [|l0 ll0] eqn:El; [exists []; reflexivity|]. rewrite <- El.
+    assert (Hne : map isort ll <> []) by (rewrite El; discriminate).
+    destruct (msl_correct (S (length (map isort ll))) (map isort ll) 0 (length (map isort ll) - 1) Hne) as (m & E & _ & _).
+    - rewrite Forall_map, Forall_forall. intros l _. apply isort_sorted.
+    - lia.
+    - destruct (map isort ll); [contradiction|simpl; lia].
+    - lia.
+    - exists m. rewrite E, sub_all by assumption. rewrite total_gt_isort, total_eq_isort. reflexivity. }
+  destruct Msl as (m & Em). rewrite Em.
+  eexists. split; [reflexivity|]. unfold dot. cbn [n11 n12 n13 n14 n15 n20 n23 n25].
+  rewrite Spec, RRval_counts, (RMval_N s r), (MMval_N s r). fold ll. ring.
+Qed.
